@@ -19,9 +19,18 @@ package converter
 //@   ensures [C07] #start-tag-for-nestable implies(result && old(isNestTag(dom.TagName(node))), exists(k, old(len(elemsOf(dc))) <= k && k < len(elemsOf(dc)), isTagElem(elemsOf(dc)[k], old(dom.TagName(node)), webdoc.TagStart)))
 //@   ensures [C07] #no-tag-otherwise implies(!result || !old(isNestTag(dom.TagName(node))), forall(k, old(len(elemsOf(dc))) <= k && k < len(elemsOf(dc)), !typeis(elemsOf(dc)[k], *webdoc.Tag)))
 //@   ensures [C02] #media-is-not-walked implies(exists(k, old(len(elemsOf(dc))) <= k && k < len(elemsOf(dc)), !typeis(elemsOf(dc)[k], *webdoc.Text) && !typeis(elemsOf(dc)[k], *webdoc.Tag)), !result)
+//@   ensures [C03] #inline-element-skipped-only-for-a-documented-reason implies(old(isInlineTag(dom.TagName(node))) && !result,
+//@              old(!domutil.IsProbablyVisible(node) || sharingMark(node) || isByline(node, classAndID(node)) ||
+//@                  (dc.hasFlag(SkipUnlikelies) && (inmap(unlikelyRoles, dom.GetAttribute(node, "role")) || (rxUnlikelyCandidates.MatchString(classAndID(node)) && !rxOkMaybeItsACandidate.MatchString(classAndID(node)) && dom.TagName(node) != "a"))) ||
+//@                  inmap(dc.embedTagNames, dom.TagName(node)) ||
+//@                  (dom.TagName(node) == "a" && (editSectionLink(node) || (hasPrefix(dom.GetAttribute(node, "href"), "javascript:") && node.Parent != nil))) ||
+//@                  (dom.TagName(node) == "span" && dom.ClassName(node) == "mw-editsection")))
+//@   ensures [C03] #edit-section-link-is-walked-like-any-link implies(old(dom.TagName(node) == "a" && editSectionLink(node) && domutil.IsProbablyVisible(node) && !sharingMark(node) && !isByline(node, classAndID(node)) &&
+//@                  !(dc.hasFlag(SkipUnlikelies) && inmap(unlikelyRoles, dom.GetAttribute(node, "role"))) && !inmap(dc.embedTagNames, "a") && !hasPrefix(dom.GetAttribute(node, "href"), "javascript:")), result)
+//@   ensures [C01,C07] #nestable-tag-name-kept implies(result, node.Type == old(node.Type) && (node.Data == old(node.Data) || (!isNestTag(node.Data) && !isNestTag(old(node.Data)))))
 //@   ensures [C03,C07] #descend-iff-started len(as(dc.builder, *webdoc.WebDocumentBuilder).actionStack) == old(len(as(dc.builder, *webdoc.WebDocumentBuilder).actionStack)) + ite(result, 1, 0)
 //@   loop 0 invariant wfConv(dc) && node.Type == 3 && (node.Parent == nil || node.Parent.Type == 3) && inheap(node)
-//@   loop 0 invariant builderUntouched()
+//@   loop 0 invariant builderUntouched() && node.Data == old(node.Data)
 //@   loop 0 invariant inTreeOf(as(dc.builder, *webdoc.WebDocumentBuilder).textBuilder, node) && !pendingNode(dc, node) && walkPos(dc, node)
 
 //@ func (*DomConverter).exitNodeHandler(node)
@@ -35,3 +44,8 @@ package converter
 //@   requires !pendingNode(dc, node) && walkPos(dc, node) && inTreeOf(as(dc.builder, *webdoc.WebDocumentBuilder).textBuilder, node)
 //@   ensures [C01] wfConv(dc)
 //@   ensures [C04] #only-text-and-elements implies(old(node.Type) != 1 && old(node.Type) != 3, !result && builderUntouched())
+
+//@ func isByline(node, matchString)
+//@   requires node != nil
+//@   pure
+//@   reads html.Node.*
